@@ -342,7 +342,7 @@ def queries(tier):
         asserts = [a for a in ALL if not (a == "setup_ack" and name[-1] in "Ss")]
         # the cubes with a status OUT after an IN are the expensive ones: give every assertion its own process there
         heavy = ("IP" in name) or ("iP" in name)
-        qs.append(Query(f"bmc_3slots_{name}", f3, 32 * 3 + 2, layer=layer, asserts=asserts, covers=[], timeout=900, split=heavy,
+        qs.append(Query(f"bmc_3slots_{name}", f3, 32 * 3 + 2, layer=layer, asserts=asserts, covers=[], timeout=900, split=heavy, tactic="portfolio",
                         desc=f"3 transactions {name}: direction rules and fresh-transfer answers; address, endpoint, data symbolic"))
     f2 = lambda: CtrlHarness(2, compose=False)
     zl2 = {f"s{i}_olen": 0 for i in range(2)}
